@@ -42,6 +42,14 @@ CHECKS["C17"] = ("RECV-MATRIX+BISIM", MC, "exhaustive receive matrix over reach 
    "Matrix: from every reachable state of client / server / any connections (v3.1.1, v5.0, undetermined; closure of the session alphabet incl. CONNECT / CONNACK on an established connection) one minimal valid frame per packet-type nibble 0..15 (plus CONNECT with levels 0/3/6/255 for undetermined servers) is delivered; kinds the remote side of the role can never send, reserved types, and anything but CONNECT before a version is known must yield a protocol error, no delivery, nothing transmitted but a DISCONNECT and unchanged session state / version. Auto-detection: an undetermined server and a fixed-version server are stepped in lock-step through the closure of a session alphabet; from the adopting CONNECT on, canonical events and the full verif_state must be equal.",
    "Bounded by the alphabets in the evidence; a cold CONNACK on a disconnected client is not judged. Trusts the verif_state hook and the reference codec.",
    "DESIGN.md §3 C17")
+CHECKS["C10"] = ("REUSE", MC, "explicit-state reach set of the real connection + differential comparison of every closed state against a freshly constructed object",
+   "Phase 1 keeps every distinct state reachable under a union alphabet (negotiated limits, aliases, keep-alive values, pending SUBSCRIBE / UNSUBSCRIBE, armed timers, interval override, role Any switching sides, partial frames) followed by every close path. Phase 2: from every state in which the transport was reported closed, the reused object and a fresh object with the same options run the same new-session handshake (client: clean CONNECT / CONNACK sp=0 with two property menus, persistent CONNECT / session not present; server: clean CONNECT / CONNACK) - canonical events of every step must be equal, verif_state must be equal in full, and a fixed probe script (publish + ack, inbound QoS 2 + PUBREL, subscribe, ping, partial frame + rest, every timer expiry) must give equal traces.",
+   "Reach set bounded by a state cap in the quick tier (reported). Trusts the completeness of the verif_state hook (exhaustive destructuring in the hook makes a new field a build error) and the trace net of the probe script.",
+   "DESIGN.md §3 C10")
+CHECKS["C16"] = ("RESTORE", MC, "explicit-state reach set of the real connection + differential export / restore check at every crash point",
+   "Every state of the closure of the C06 / C07 session alphabet on a persistent session is a crash point: the stored packets and the handled-id set are exported, restored into a fresh object of the same role / version / options, and both the original (after notify_closed) and the restored object resume the session (thorough and v5: also with Receive Maximum 1). Required: equal canonical events during the resume, equal verif_state, equal events and successor states for a continuation alphabet (every acknowledgement kind for ids 1..3, QoS 2 duplicates, register of ids 1..3, a new publish, the vacancy); plus absolute clauses on the restored object (retransmission list = export in order, restored ids cannot be registered, the matching acknowledgement is accepted and releases, handled QoS 2 duplicates are answered with PUBREC and not notified). Malformed exports (duplicate ids, QoS 0 entry) are skipped without panic.",
+   "Crash points are application step boundaries (DESIGN §2.4). A defect that affects original and restored object identically is invisible to the differential part (C06 / C12 decide those).",
+   "DESIGN.md §3 C16")
 NOT_YET = {}
 
 def main():
